@@ -657,7 +657,43 @@ def _is_zero(v):
     return isinstance(v, Aff) and not v.coeffs and v.const == 0
 
 
+SUBSTITUTE_TABLE = (
+    # text, old, new, instance number, result: the k-th occurrence counted from the left; an instance number that is a whole-valued
+    # float (the result of 4/2) counts like the integer; no such occurrence leaves the text unchanged
+    ('a-b-c-d', '-', '+', 1, 'a+b-c-d'), ('a-b-c-d', '-', '+', 2, 'a-b+c-d'), ('a-b-c-d', '-', '+', 3, 'a-b-c+d'),
+    ('a-b-c-d', '-', '+', 4, 'a-b-c-d'), ('a-b-c-d', '-', '+', 2.0, 'a-b+c-d'), ('a-b-c-d', '-', '+', 3.0, 'a-b-c+d'),
+    ('a-b-c-d', '-', '+', 9.0, 'a-b-c-d'), ('-ab-', '-', '', 1, 'ab-'), ('-ab-', '-', '', 2, '-ab'), ('abcabc', 'bc', 'X', 2, 'abcaX'),
+    ('abc', 'x', 'y', 1, 'abc'), ('one two one', 'one', '1', 2, 'one two 1'),
+)
+
+
+def _substitute_table(model, res):
+    m, f = model.registered('SUBSTITUTE')
+    n = 0
+    for text, old, new, k_, want in SUBSTITUTE_TABLE:
+        case = {'text': text, 'old': old, 'new': new, 'instance': k_}
+        try:
+            outs = _runs(model, 'SUBSTITUTE', lambda: [Const(text), Const(old), Const(new), Const(k_)])
+        except Unmodelled as e:
+            res.ob('R10', 'SUBSTITUTE', case, True, 'undecided: %s' % e)
+            continue
+        if len(outs) != 1 or outs[0].imprecise or not (outs[0].kind == 'raise' or isinstance(outs[0].value, (Const, Err))):
+            res.ob('R10', 'SUBSTITUTE', case, True, 'undecided: %s' % '; '.join(H.describe(outs))[:100])
+            continue
+        o = outs[0]
+        n += 1
+        ok = o.kind == 'return' and isinstance(o.value, Const) and o.value.value == want
+        res.ob('R10', 'SUBSTITUTE', dict(case, result=repr(o.value)), ok)
+        if not ok:
+            res.violation('R10', 'function:SUBSTITUTE:kth-table', m.where(f),
+                          'SUBSTITUTE(%r, %r, %r, %r) %s; replacing only occurrence number %s (counted from the left, a whole-valued float counting '
+                          'like the integer) gives %r' % (text, old, new, k_, ('gives %r' % (o.value,)) if o.kind == 'return' else ('raises %r' % (o.value,)),
+                                                         int(k_), want), case=case, func=f.name)
+    res.soft_floor('SUBSTITUTE table rows decided', n, 8)
+
+
 def _kth_occurrence(model, res):
+    _substitute_table(model, res)
     m, f = model.registered('SUBSTITUTE')
     where = m.where(f)
     n = 0
